@@ -81,6 +81,19 @@ func propC05(c *ctx) error {
 			return err
 		}
 	}
+	// directive attributes written WITHOUT a value (<p :remove>, <input :checked />, <p :text>): whatever the engine does
+	// with them (an error, a default), they never reach the output
+	for _, name := range []string{"remove", "text", "raw", "if", "else", "elif", "else-if", "with", "range", "insert", "replace", "define", "class", "checked", "hidden", "data-x", "title"} {
+		for _, form := range []string{`<p :%s>z</p>`, `<p :%s >z<b>c</b></p>`, `<input :%s />`, `<input :%s>`, `<p class="a" :%s id=k>z</p>`, `<t:block :%s>z</t:block>`,
+			`<ul><li :range="_, x : xs" :text="${x}"><i :%s>q</i></li></ul>`, `<ul><li :range="_, x : xs"><i :%s>q</i>${x}</li></ul>`, `<p :if="${t}" :%s>z</p><p :else>e</p>`, `<p :%s :title="${a}">z</p>`} {
+			rc := &renderCase{Files: [][2]string{{"t", fmt.Sprintf(form, name)}}, Tpl: "t",
+				Data: vMap(kv{"t", vBool(true)}, kv{"a", vInt(1)}, kv{"xs", vIntSlice(1, 2)}).j}
+			res.count("valueless_directives")
+			if err := run(rc, nil); err != nil {
+				return err
+			}
+		}
+	}
 	r := newRng(c.seed, "C05")
 	n := c.n(2500, 40000)
 	for i := 0; i < n; i++ {
